@@ -316,3 +316,31 @@ def first_diff(a, b, zero_loose=False):
         if canon_int(x, zero_loose) != canon_int(y, zero_loose):
             return i
     return None
+
+
+def run_harness_robust(lines, profile="debug", features=(), max_crashes=12):
+    """like run_harness, but survives aborts of the harness process (e.g. the debug-build UB checks of
+    get_unchecked): the case on which the process died gets the transcript [T_CRASH]; the rest is re-run"""
+    T_CRASH = -4
+    out = [None] * len(lines)
+    start = 0
+    crashes = 0
+    err = None
+    while start < len(lines):
+        res, e = run_harness(lines[start:], profile, features)
+        done = 0
+        for r in res:
+            if r is None:
+                break
+            out[start + done] = r
+            done += 1
+        if done == len(res):
+            break
+        # the process died on case start+done
+        out[start + done] = [T_CRASH]
+        err = e
+        crashes += 1
+        start = start + done + 1
+        if crashes >= max_crashes:
+            break
+    return out, (err if crashes else None)
